@@ -129,6 +129,18 @@ fn run_snapshot_inner(args: &SnapshotArgs, cli: &Cli) -> crate::Result<i32> {
     // 10. Load history and add entry
     let default_path = state::history_path(&project_root);
     let history_path = args.history_file.as_ref().unwrap_or(&default_path);
+    // Appending is load + push + save: hold the update lock across all three, otherwise two
+    // concurrent snapshots each write back what they loaded and one entry is lost.
+    let _update_lock = if args.dry_run {
+        None
+    } else if let Some(lock) = state::UpdateLock::acquire(history_path, "history file") {
+        Some(lock)
+    } else {
+        if !cli.quiet {
+            println!("Snapshot skipped: the history file is being updated by another process.");
+        }
+        return Ok(EXIT_SUCCESS);
+    };
     let mut history = TrendHistory::load_or_default(history_path);
 
     // Get trend config
@@ -159,7 +171,14 @@ fn run_snapshot_inner(args: &SnapshotArgs, cli: &Cli) -> crate::Result<i32> {
     history.add_with_context(&project_stats, git_context.as_ref());
 
     // Save with retention policy applied
-    history.save_with_retention(history_path, &trend_config)?;
+    let outcome = history.save_with_retention(history_path, &trend_config)?;
+    if matches!(outcome, state::SaveOutcome::Skipped) {
+        // The save was abandoned (lock timeout): do not report a snapshot that is not there.
+        if !cli.quiet {
+            println!("Snapshot skipped: the history file could not be locked for writing.");
+        }
+        return Ok(EXIT_SUCCESS);
+    }
 
     if !cli.quiet {
         print_snapshot_summary(&project_stats, git_context.as_ref(), history_path);
